@@ -23,7 +23,7 @@ import (
 const c19TableT = "c1,c2,c3\n1,a,x\n2,,x\n-3,é,y\n,abc,\n2.5,1,y\n"
 
 func (r *c19Runner) ensureT() {
-	for name, content := range map[string]string{"t.csv": c19TableT, "e.csv": "c1,c2,c3\n"} {
+	for name, content := range map[string]string{"t.csv": c19TableT, "e.csv": "c1,c2,c3\n", "z.csv": "", "ea.json": "[]\n", "eo.json": "[{}]\n", "nl.csv": "\n"} {
 		p := filepath.Join(r.dir, name)
 		if b, err := os.ReadFile(p); err != nil || string(b) != content {
 			if err := os.WriteFile(p, []byte(content), 0644); err != nil {
@@ -504,6 +504,15 @@ var c19Templates = func() []c19Tpl {
 		{id: "tbl-data", sql: "SELECT * FROM DATA::($a)"},
 		{id: "tbl-file", sql: "SELECT * FROM FILE::($a)"},
 		{id: "tbl-inline", sql: "SELECT * FROM INLINE::($a)"},
+		// tables without any field: an empty file, an empty JSON array, an array of an empty object, every column dropped
+		{id: "no-fields-count", sql: "SELECT COUNT(*) FROM z; SELECT COUNT(*) FROM ea; SELECT COUNT(*) FROM eo; SELECT COUNT(*) FROM nl"},
+		{id: "no-fields-star", sql: "SELECT * FROM z; SELECT * FROM ea; SELECT * FROM eo; SELECT * FROM nl; SELECT $a FROM eo"},
+		{id: "no-fields-clauses", sql: "SELECT $a FROM eo WHERE TRUE ORDER BY 1; SELECT DISTINCT $a FROM eo; SELECT MAX($a), LISTAGG($a) FROM eo GROUP BY $a; SELECT * FROM t CROSS JOIN eo; SELECT * FROM eo UNION SELECT * FROM ea"},
+		{id: "no-fields-dml", sql: "INSERT INTO eo VALUES ($a); UPDATE eo SET x = $a; DELETE FROM eo; ALTER TABLE eo ADD x; SELECT * FROM eo", rollback: true},
+		{id: "drop-all-columns", sql: "ALTER TABLE t DROP (c1, c2, c3); SELECT COUNT(*) FROM t; SELECT * FROM t; SELECT $a FROM t; INSERT INTO t VALUES ($a); ALTER TABLE t ADD x DEFAULT $a; SELECT * FROM t", rollback: true},
+		// names csvq uses internally, a key given twice
+		{id: "internal-id-column", sql: "UPDATE t SET `@__internal_id` = $a; SELECT `@__internal_id` FROM t; DELETE FROM t WHERE `@__internal_id` = $a; ALTER TABLE t ADD `@__internal_id`; INSERT INTO t (`@__internal_id`) VALUES ($a)", rollback: true},
+		{id: "replace-key-twice", sql: "REPLACE INTO t (c1) USING (c1, c1) VALUES ($a); REPLACE INTO t (c1, c2) USING (c1, c2, c1) VALUES ($a, $b); REPLACE INTO t (c1, c1) USING (c1) VALUES ($a, $b)", rollback: true},
 		// the same file as a cached table and as an inline table in one transaction (read-only cache entry, held entry)
 		{id: "inline-after-select", sql: "SELECT c1 FROM t WHERE c1 = $a; SELECT * FROM CSV_INLINE(',', `t.csv`); SELECT * FROM INLINE::('t.csv'); SELECT * FROM t"},
 		{id: "inline-after-update", sql: "UPDATE t SET c2 = $a; SELECT * FROM CSV_INLINE(',', `t.csv`); SELECT * FROM t", rollback: true},
